@@ -12,7 +12,7 @@ KINDNAME = {"arr": "array", "str": "struct", "map": "map"}
 
 
 # ----------------------------------------------------------------------------- TLC rows
-def tlc_rows(ctx, cfg, consts=None, timeout=1500, workers=1):
+def tlc_rows(ctx, cfg, consts=None, timeout=1500, workers=1, coverage=False):
     """Run NeoVM_MC with the given cfg (optionally rewriting constants) and split the ROW lines."""
     files = None
     cfgname = cfg
@@ -26,7 +26,7 @@ def tlc_rows(ctx, cfg, consts=None, timeout=1500, workers=1):
         import re as _re
         cfgname = "gen_" + "_".join("%s%s" % (k, _re.sub(r"[^A-Za-z0-9]", "", v)) for k, v in sorted(consts.items())) + "_" + cfg
         files = {cfgname: text}
-    r = ctx.tlc("NeoVM_MC", cfg=cfgname, workers=workers, timeout=timeout, files=files)
+    r = ctx.tlc("NeoVM_MC", cfg=cfgname, workers=workers, timeout=timeout, files=files, coverage=coverage)
     heaps, muts = [], []
     seen = set()
     for o in r.prints.get("ROW", []):
@@ -199,7 +199,7 @@ def _limits(mem_bytes):
     return f
 
 
-def run_child(ctx, binary, test, items, tag, timeout, mem_gb=6, key="items", extra_env=None, defop="deser"):
+def run_child(ctx, binary, test, items, tag, timeout, mem_gb=8, key="items", extra_env=None, defop="deser", max_deaths=5):
     """Run `items` in child processes of the harness.  The child emits {"start":id,"op":..} before and a result after
     every (item, op); when it dies or exceeds `timeout` the first unanswered (item, op) gets the outcome
     crash / stack-overflow / oom / timeout and a new child continues after it.
@@ -221,19 +221,35 @@ def run_child(ctx, binary, test, items, tag, timeout, mem_gb=6, key="items", ext
         env.update(extra_env or {})
         wd = os.path.join(ctx.scratch, "wd")
         os.makedirs(wd, exist_ok=True)
-        cmd = [binary, "-test.run", "^%s$" % test, "-test.timeout", "%ds" % (timeout + 60)]
+        cmd = [binary, "-test.run", "^%s$" % test, "-test.timeout", "0"]
         t0 = time.time()
         timed_out = False
-        try:
-            p = subprocess.run(cmd, cwd=wd, env=env, stdout=subprocess.PIPE, stderr=subprocess.STDOUT, timeout=timeout,
-                               preexec_fn=_limits(mem_gb << 30), errors="replace", text=True)
-            rc, out = p.returncode, p.stdout[-20000:] + p.stdout[:3000]
-        except subprocess.TimeoutExpired as ex:
-            timed_out = True
-            rc = -9
-            o = ex.stdout or ""
-            out = o.decode(errors="replace") if isinstance(o, bytes) else o
-            out = out[:3000]
+        # `timeout` is a PER-ITEM limit: the child is killed when its result file has not grown for that long
+        # (a slow machine makes a batch slow, it must not make the open item look like a hang)
+        fstd = os.path.join(ctx.scratch, "%s-%d.stdout" % (tag, rnd))
+        with open(fstd, "w") as so:
+            p = subprocess.Popen(cmd, cwd=wd, env=env, stdout=so, stderr=subprocess.STDOUT, preexec_fn=_limits(mem_gb << 30))
+            last_size, last_change = -1, time.time()
+            while p.poll() is None:
+                time.sleep(0.25)
+                sz = os.path.getsize(fout) if os.path.exists(fout) else 0
+                now = time.time()
+                if sz != last_size:
+                    last_size, last_change = sz, now
+                elif now - last_change > timeout:
+                    timed_out = True
+                    p.kill()
+                    p.wait()
+                    break
+            rc = p.returncode
+        with open(fstd, errors="replace") as f:
+            out = f.read(3000)
+            f.seek(0, 2)
+            n = f.tell()
+            if n > 3000:
+                f.seek(max(3000, n - 20000))
+                out += f.read()
+        os.remove(fstd)
         lines = vf.read_ndjson(fout) if os.path.exists(fout) else []
         done = any(l.get("done") for l in lines)
         open_start = None
@@ -254,6 +270,8 @@ def run_child(ctx, binary, test, items, tag, timeout, mem_gb=6, key="items", ext
             ctx.infra("harness child %s ended (rc=%s, timeout=%s) outside an item: %s" % (test, rc, timed_out, out[-800:]))
             break
         deaths += 1
+        if deaths > max_deaths:
+            ctx.log("%s: %d child deaths, the remaining %d items of this chain are not run" % (tag, deaths, len(pending)))
         kind = "timeout" if timed_out else "stack-overflow" if "stack overflow" in out or "goroutine stack exceeds" in out \
             else "oom" if "out of memory" in out or "cannot allocate memory" in out else "crash"
         results.append({"id": open_start[0], "op": open_start[1], "out": kind, "err": out[:300].replace("\n", " | "),
@@ -271,11 +289,11 @@ def run_child(ctx, binary, test, items, tag, timeout, mem_gb=6, key="items", ext
         if len(nxt) == len(pending) and all(a.get("ops") == b.get("ops") for a, b in zip(nxt, pending)):
             ctx.infra("harness child %s makes no progress" % test)
             break
-        pending = nxt
+        pending = nxt if deaths <= max_deaths else []
     return results, deaths
 
 
-def run_children_parallel(ctx, binary, test, items, tag, timeout, nproc, mem_gb=6, key="items", extra_env=None, defop="deser"):
+def run_children_parallel(ctx, binary, test, items, tag, timeout, nproc, mem_gb=6, key="items", extra_env=None, defop="deser", max_deaths=5):
     """split items over nproc child chains"""
     if not items:
         return [], 0
@@ -283,7 +301,7 @@ def run_children_parallel(ctx, binary, test, items, tag, timeout, nproc, mem_gb=
     parts = [items[i::nproc] for i in range(nproc)]
     res, deaths = [], 0
     with concurrent.futures.ThreadPoolExecutor(max_workers=nproc) as ex:
-        futs = [ex.submit(run_child, ctx, binary, test, part, "%s-p%d" % (tag, i), timeout, mem_gb, key, extra_env, defop) for i, part in enumerate(parts)]
+        futs = [ex.submit(run_child, ctx, binary, test, part, "%s-p%d" % (tag, i), timeout, mem_gb, key, extra_env, defop, max_deaths) for i, part in enumerate(parts)]
         for f in futs:
             r, d = f.result()
             res += r
